@@ -12,6 +12,7 @@ import (
 	"errors"
 	"io"
 	"net"
+	"sync/atomic"
 	"time"
 
 	"github.com/prometheus/client_golang/prometheus"
@@ -65,7 +66,7 @@ func (s *Server) Serve(ctx context.Context, listener DeadlineListener) error {
 		if err != nil {
 			s.Errorf(ctx, "%s", err)
 		}
-		s.Infof(ctx, "waiting for [%v] connections to close prior to shutdown", s.active)
+		s.Infof(ctx, "waiting for [%v] connections to close prior to shutdown", atomic.LoadInt64(&s.active))
 		s.Wait()
 	}()
 
